@@ -74,7 +74,7 @@ fn genotype_from_vcf_p1() {
     classify::<1>()
 }
 
-// @harness props=C08,C17 tier=quick bounds=ploidy=2,alleles=None|any-usize,phasing=any
+// @harness props=C08,C17,C01 tier=quick bounds=ploidy=2,alleles=None|any-usize,phasing=any
 #[kani::proof]
 #[kani::unwind(5)]
 fn genotype_from_vcf_p2() {
